@@ -1,1 +1,148 @@
 //! Hooks into `record_store` (child module: sees its private items).
+//!
+//! Pass-through wrappers and read-only views of the crate-private `NodeRecordStore` API for the
+//! external correspondence harness. Nothing here changes behaviour.
+
+use super::*;
+
+pub use super::NodeRecordStoreConfig;
+
+/// `MAX_RECORDS_COUNT` as compiled.
+pub const MAX_RECORDS_COUNT_VALUE: usize = MAX_RECORDS_COUNT;
+/// `MAX_RECORDS_CACHE_SIZE` as compiled.
+pub const MAX_RECORDS_CACHE_SIZE_VALUE: usize = MAX_RECORDS_CACHE_SIZE;
+/// `HISTORICAL_QUOTING_METRICS_FILENAME` as compiled.
+pub const HISTORICAL_QUOTING_METRICS_FILENAME_VALUE: &str = HISTORICAL_QUOTING_METRICS_FILENAME;
+/// Whether record files are encrypted in this build (`cfg!(feature = "encrypt-records")`).
+pub const ENCRYPT_RECORDS: bool = cfg!(feature = "encrypt-records");
+
+/// `NodeRecordStore::with_config`
+pub fn with_config(
+    local_id: PeerId,
+    config: NodeRecordStoreConfig,
+    network_event_sender: mpsc::Sender<NetworkEvent>,
+    swarm_cmd_sender: mpsc::Sender<LocalSwarmCmd>,
+) -> NodeRecordStore {
+    NodeRecordStore::with_config(local_id, config, network_event_sender, swarm_cmd_sender)
+}
+
+/// `NodeRecordStore::put_verified`
+pub fn put_verified(store: &mut NodeRecordStore, r: Record, record_type: RecordType) -> Result<()> {
+    store.put_verified(r, record_type)
+}
+
+/// `NodeRecordStore::mark_as_stored`
+pub fn mark_as_stored(store: &mut NodeRecordStore, key: Key, record_type: RecordType) {
+    store.mark_as_stored(key, record_type)
+}
+
+/// `RecordStore::remove`
+pub fn remove(store: &mut NodeRecordStore, key: &Key) {
+    RecordStore::remove(store, key)
+}
+
+/// `RecordStore::get`, owned
+pub fn get(store: &NodeRecordStore, key: &Key) -> Option<Record> {
+    RecordStore::get(store, key).map(|r| r.into_owned())
+}
+
+/// `NodeRecordStore::contains`
+pub fn contains(store: &NodeRecordStore, key: &Key) -> bool {
+    store.contains(key)
+}
+
+/// `NodeRecordStore::record_addresses`
+pub fn record_addresses(store: &NodeRecordStore) -> HashMap<NetworkAddress, RecordType> {
+    store.record_addresses()
+}
+
+/// `NodeRecordStore::record_addresses_ref`, cloned
+pub fn record_addresses_ref(store: &NodeRecordStore) -> HashMap<Key, (NetworkAddress, RecordType)> {
+    store.record_addresses_ref().clone()
+}
+
+/// Read-only dump of `records_by_distance` in map order.
+pub fn records_by_distance(store: &NodeRecordStore) -> Vec<(U256, Key)> {
+    store
+        .records_by_distance
+        .iter()
+        .map(|(d, k)| (*d, k.clone()))
+        .collect()
+}
+
+/// Read-only view of `farthest_record`.
+pub fn farthest_record(store: &NodeRecordStore) -> Option<(Key, Distance)> {
+    store.farthest_record.clone()
+}
+
+/// `NodeRecordStore::get_farthest`
+pub fn get_farthest(store: &NodeRecordStore) -> Option<Key> {
+    store.get_farthest()
+}
+
+/// Read-only view of the FIFO cache: key, value bytes, time stamp.
+pub fn cache_entries(store: &NodeRecordStore) -> Vec<(Key, Vec<u8>, SystemTime)> {
+    store
+        .records_cache
+        .records_cache
+        .iter()
+        .map(|(k, (r, t))| (k.clone(), r.value.clone(), *t))
+        .collect()
+}
+
+/// Configured size of the FIFO cache.
+pub fn cache_size(store: &NodeRecordStore) -> usize {
+    store.records_cache.cache_size
+}
+
+/// `NodeRecordStore::quoting_metrics`
+pub fn quoting_metrics(
+    store: &NodeRecordStore,
+    key: &Key,
+    network_size: Option<u64>,
+) -> (QuotingMetrics, bool) {
+    store.quoting_metrics(key, network_size)
+}
+
+/// `NodeRecordStore::payment_received`
+pub fn payment_received(store: &mut NodeRecordStore) {
+    store.payment_received()
+}
+
+/// Read-only view of `received_payment_count`.
+pub fn received_payment_count(store: &NodeRecordStore) -> usize {
+    store.received_payment_count
+}
+
+/// `NodeRecordStore::set_responsible_distance_range`
+pub fn set_responsible_distance_range(store: &mut NodeRecordStore, responsible_distance: U256) {
+    store.set_responsible_distance_range(responsible_distance)
+}
+
+/// `NodeRecordStore::get_responsible_distance_range`
+pub fn get_responsible_distance_range(store: &NodeRecordStore) -> Option<U256> {
+    store.get_responsible_distance_range()
+}
+
+/// `NodeRecordStore::cleanup_irrelevant_records`
+pub fn cleanup_irrelevant_records(store: &mut NodeRecordStore) {
+    store.cleanup_irrelevant_records()
+}
+
+/// `NodeRecordStore::get_records_within_distance_range`
+pub fn get_records_within_distance_range(store: &NodeRecordStore, range: U256) -> usize {
+    store.get_records_within_distance_range(range)
+}
+
+/// `NodeRecordStore::generate_filename`
+pub fn generate_filename(key: &Key) -> String {
+    NodeRecordStore::generate_filename(key)
+}
+
+/// The distance the store computes from itself to `key` (kad distance and its `U256` rendering).
+pub fn distance_to(store: &NodeRecordStore, key: &Key) -> (Distance, U256) {
+    let d = store
+        .local_address
+        .distance(&NetworkAddress::from_record_key(key));
+    (d, convert_distance_to_u256(&d))
+}
